@@ -8,7 +8,7 @@
     - write (canon i) = write i is proved from [wf_fits] and [stable_hyp] (Stable.v), a
       computable guard that excludes exactly: the two recorded defects of the second write
       (long-header sumtim; a lowered precision that rounds into a shorter exponent), more
-      than 14 printed decimals, and printed decimal exponents outside [-300, 300] (where the
+      than 14 printed decimals, and printed decimal exponents outside [-307, 307] (where the
       exact-rational argument "the double nearest a (q+1)-digit decimal prints the same q+1
       digits" of SciTrip.v / RealIdem.v is not carried out).  No per-field hypothesis is left. *)
 From Coq Require Import Ascii String List Bool Arith ZArith NArith.
@@ -97,13 +97,33 @@ Proof. exact used_prec_full. Qed.
 Print Assumptions incon_full_precision_when_it_fits.
 
 (** the numerical core of the second write: the double nearest a decimal of p+1 <= 15 digits,
-    decimal exponent within [-300, 300], prints with p decimals the same digits and exponent *)
+    decimal exponent within [-307, 307], prints with p decimals the same digits and exponent *)
 Theorem nearest_double_prints_same_digits : forall p N k ng,
-  (0 <= p <= 14)%Z -> (10 ^ p <= N < 10 ^ (p + 1))%Z -> (-300 <= k <= 300)%Z ->
+  (0 <= p <= 14)%Z -> (10 ^ p <= N < 10 ^ (p + 1))%Z -> (-307 <= k <= 307)%Z ->
   exists m' e', nearest (Fin ng (Z.to_N N) (k - p)) = PDy ng m' e' /\ (0 < m')%Z /\
                 sci p (fst (num_den m' e')) (snd (num_den m' e')) = (N, k).
 Proof. exact nearest_trip. Qed.
 Print Assumptions nearest_double_prints_same_digits.
+(** the boundary of that statement, as a computable check [trip_ok p N k] (nearest double of N * 10^(k-p), printed
+    with p decimals, gives (N, k) again): true for every decimal of up to 15 digits with exponent in [-307, 307];
+    false for a 16-digit and a 17-digit decimal (2^53 + 1 and its neighbour), false at exponent 308 (9e308
+    overflows) and in the subnormal range (15 digits at 1e-320).  Not decided here: exponents -308, -309 *)
+Theorem decimal_trip_up_to_15_digits : forall p N k,
+  (0 <= p <= 14)%Z -> (10 ^ p <= N < 10 ^ (p + 1))%Z -> (-307 <= k <= 307)%Z -> trip_ok p N k = true.
+Proof. exact trip_ok_up_to_15_digits. Qed.
+Print Assumptions decimal_trip_up_to_15_digits.
+Theorem decimal_trip_16_digits_refuted : (10 ^ 15 <= 9007199254740993 < 10 ^ 16)%Z /\ trip_ok 15 9007199254740993 15 = false.
+Proof. exact trip_16_digits_refuted. Qed.
+Print Assumptions decimal_trip_16_digits_refuted.
+Theorem decimal_trip_17_digits_refuted : (10 ^ 16 <= 90071992547409931 < 10 ^ 17)%Z /\ trip_ok 16 90071992547409931 16 = false.
+Proof. exact trip_17_digits_refuted. Qed.
+Print Assumptions decimal_trip_17_digits_refuted.
+Theorem decimal_trip_exponent_308_refuted : trip_ok 0 9 308 = false.
+Proof. exact trip_exponent_308_refuted. Qed.
+Print Assumptions decimal_trip_exponent_308_refuted.
+Theorem decimal_trip_subnormal_refuted : trip_ok 14 123456789012345 (-320) = false.
+Proof. exact trip_subnormal_refuted. Qed.
+Print Assumptions decimal_trip_subnormal_refuted.
 (** a real that fits and is [stable_ok] is re-written with the same text; so is every other value that fits *)
 Theorem field_rewritten_identically : forall f v, fits_ok f v = true -> stable_ok f v = true -> idem_ok f v = true.
 Proof. exact stable_idem. Qed.
@@ -111,7 +131,7 @@ Print Assumptions field_rewritten_identically.
 (** a value printed with the precision of the table is read back as a value printed with that precision
     (the same-precision clause of [stable_ok] can only fail after the precision was lowered) *)
 Theorem full_precision_is_kept : forall f ng m e, ft f = Te -> (0 < m)%Z -> used_prec f (XReal ng m e) = Some (prec f) ->
-  (0 <= prec f <= 14)%Z -> (-300 <= snd (sci (prec f) (fst (num_den m e)) (snd (num_den m e))) <= 300)%Z ->
+  (0 <= prec f <= 14)%Z -> (-307 <= snd (sci (prec f) (fst (num_den m e)) (snd (num_den m e))) <= 307)%Z ->
   exists m' e', canon_field f (MNum (PDy ng m e)) = MNum (PDy ng m' e') /\ used_prec f (XReal ng m' e') = Some (prec f).
 Proof. exact Stable.full_precision_is_kept. Qed.
 Print Assumptions full_precision_is_kept.
